@@ -33,7 +33,7 @@ vlib.standard_check({
     "harness": "c12",
     # <ncases> <statements per design (each design draws 1..2x)>
     "streams": {"quick": [[2500, 12], [300, 40], [600, 3]],
-                "thorough": [[30000, 12], [4000, 40], [8000, 3], [600, 120]]},
+                "thorough": [[80000, 12], [8000, 40], [20000, 3], [1000, 120]]},
     "search": [[6000, 12], [1500, 30]],
     "signature": signature,
     "eval_key": "ops",
